@@ -6,7 +6,7 @@
    Strings are [list Z] (code points).  Floats are binary64 values with round-to-nearest-even
    arithmetic (Model/ConfigFloatModel.v); float(str) and repr(float) are modelled below.      *)
 From Coq Require Import ZArith List Bool QArith Lia.
-From HV Require Import Gen.GenConfig Gen.GenConfigTime Gen.GenConfigMain Spec.ConfigSpec Model.ConfigFloatModel.
+From HV Require Import Gen.GenConfig Gen.GenConfigTime Gen.GenConfigMain Gen.GenConfigNatspec Spec.ConfigSpec Model.ConfigFloatModel.
 Import ListNotations.
 Open Scope Z_scope.
 
@@ -269,6 +269,49 @@ Definition zero_pad (width : Z) (ds : list Z) : list Z :=
 Definition fmt_hex (width : Z) (upper : bool) (v : Z) : list Z :=
   if v <? 0 then 45 :: zero_pad (width - 1) (map (digit_char upper) (to_digits 16 (- v)))
   else zero_pad width (map (digit_char upper) (to_digits 16 v)).
+
+(* ====================================================================== annotation text == *)
+
+(* build.parse_natspec(natspec):
+     isHalmosTag = False; result = ""
+     for item in re.split(r"(@\S+)", natspec.get("text", "")):
+         if item == "@custom:halmos": isHalmosTag = True
+         elif re.match(r"^@\S", item): isHalmosTag = False
+         elif isHalmosTag: result += item
+     return result.strip()
+   (shape and literals generated; the two regexes are pinned in Props/C18.v to the ones this
+   hand-written splitter reads: a tag is '@' followed by a maximal run of non-white-space) *)
+Definition next_nonws (r : list Z) : bool :=
+  match r with d :: _ => negb (is_ws d) | [] => false end.
+
+(* re.split(r"(@\S+)", s): text and tag items alternate, a text item (possibly empty) first and
+   last; [cur] is the item being read, reversed *)
+Fixpoint split_tags (s cur : list Z) (in_tag : bool) : list (list Z) :=
+  match s with
+  | [] => if in_tag then [rev cur; []] else [rev cur]
+  | c :: r =>
+      if in_tag then
+        if is_ws c then rev cur :: split_tags r [c] false else split_tags r (c :: cur) true
+      else
+        if (c =? 64) && next_nonws r then rev cur :: split_tags r [c] true
+        else split_tags r (c :: cur) false
+  end.
+
+(* re.match(r"^@\S", item) *)
+Definition is_tag_item (it : list Z) : bool :=
+  match it with c :: d :: _ => (c =? 64) && negb (is_ws d) | _ => false end.
+
+Fixpoint natspec_fold (items : list (list Z)) (flag : bool) (acc : list Z) : list Z :=
+  match items with
+  | [] => acc
+  | it :: r =>
+      if list_eqb it natspec_halmos_tag then natspec_fold r true acc
+      else if is_tag_item it then natspec_fold r false acc
+      else natspec_fold r flag (if flag then acc ++ it else acc)
+  end.
+
+Definition parse_natspec (text : list Z) : list Z :=
+  strip (natspec_fold (split_tags text [] false) false []).
 
 (* ====================================================================== codecs ========= *)
 
